@@ -144,6 +144,12 @@ def run(ctx, out, tier):
                 pfp = b
             elif any(b.local_ty(i).startswith("&std::ffi::OsString") for i in range(1, b.argc + 1)):
                 tpe = b
+    # normalised views (pipelines / combinators expanded); the per-suffix lookup stays a call
+    if pfp is not None:
+        tid = tpe.id if tpe is not None else None
+        pfp = ctx.inl(pfp, skip=lambda cb: ctx.domain_api(cb) or cb.id == tid, tag="C16", sugar=True)
+    if tpe is not None:
+        tpe = ctx.inl(tpe, skip=ctx.domain_api, tag="domain", sugar=True)
     k = 0
     direction = "right"
     if pfp is None:
